@@ -257,7 +257,9 @@ func (w *world) stopTask() {
 func (w *world) quiesce() {
 	deadline := time.Now().Add(deadlineScale * 20 * time.Second)
 	for i := 0; ; i++ {
-		if w.ctx.enq.Load() == w.ctx.done.Load() {
+		// read done FIRST, then enq (the two counters cannot be read atomically; enq-then-done can
+		// report quiescence while a nested enqueue is still unhandled, see drivers/c09 quiesce)
+		if d := w.ctx.done.Load(); d == w.ctx.enq.Load() {
 			return
 		}
 		if i > 200 {
